@@ -124,13 +124,19 @@ func verifC03(mode, maxCols, maxBody, L int, decoSel int) {
 		t.SetDecoration(d)
 	}
 	boxless := d == decoration.NoBox()
+	// the rectangle does not depend on how the columns are aligned: with wide, combining and zero-width
+	// characters (mode 2) the first column is optionally right-aligned or centred
+	aligns := make([]int, ncols)
+	if mode == 2 {
+		aligns[0] = []int{0, 2, 3}[vfChoice("align-first-column", 3)]
+		vfSetAlign(t, 1, aligns[0])
+	}
 	out, err := t.Render()
 	vfObserveStr("out", out)
 	vfAssert(err == nil, "render-ok")
 	if err != nil {
 		return
 	}
-	aligns := make([]int, ncols)
 	want := vfRefRender(d, boxless, nh >= 0, hdr, rows, ncols, aligns)
 	vfAssert(out == want, "layout-as-documented")
 	vfRectangle(out, ncols, vfColWidths(hdr, rows, ncols), boxless)
